@@ -322,6 +322,25 @@ def gen_program(rnd, nfiles=None, opts=None, base=None, tries=30, charset="bk", 
             host = rnd.choice(files)
             pos = rnd.randrange(len(host.stmts) + 1)
             host.stmts[pos:pos] = [apm.insert_file("blob9.bin"), apm.simple(".even")]
+        nf = len(files)
+        if opts.get("shadow", True) and nf >= 2 and rnd.random() < 0.25:
+            # a name exported by one file (a label, or a constant whose value is final at once) and defined privately, further down,
+            # in another file that uses it before: the file's own definition is the one its references mean
+            i = rnd.randrange(nf)
+            j = rnd.choice([x for x in range(nf) if x != i])
+            name = None
+            if ctxs[i].exports and rnd.random() < 0.5:
+                name = rnd.choice(list(ctxs[i].exports))
+            if name is None:
+                name = f"shd{i}x"
+                files[i].stmts.insert(rnd.randrange(len(files[i].stmts) + 1), apm.assign(name, apm.num(rnd.choice([0o100, 0o144, 0o2000, 7])), extern=True))
+            use = rnd.choice([apm.data(".word", ("sym", name)), apm.insn("mov", ("imm", ("sym", name)), ("reg", 1)),
+                              apm.insn("mov", ("rel", ("sym", name)), ("reg", 1)), apm.insn("jmp", ("rel", ("sym", name)))])
+            files[j].stmts[0:0] = [use]
+            if rnd.random() < 0.6:
+                files[j].stmts += [apm.simple(".even"), apm.label(name), apm.data(".word", apm.num(rnd.randrange(0x10000)))]
+            else:
+                files[j].stmts.insert(rnd.randrange(1, len(files[j].stmts) + 1), apm.assign(name, apm.num(rnd.choice([0o300, 0o1234, 5]))))
         b = base if base is not None else rnd.choice([None, 0o1000, 0o2000, 0, 0o40000, 0o100000, 0o157776, 0o1001 if opts.get("odd_base") else 0o1002])
         if b is not None:
             site = rnd.random()
